@@ -33,20 +33,19 @@ theorem bstart_grammar_partial (nL nR : Nat) (lc rc : Bool) (hn : nL + nR ≠ 0)
   have := runFrom_term ops (init nL nR lc rc) 0 (by simpa [init, Noir.Start.init] using hn)
   simpa [run] using this
 
-/-- **F6 — the grammar is violated with a cached side and two loop-side replicas**: data between the
-    last `FlushAndRestart` and `Terminate` (history of `cache_replay_counterexample`). -/
-theorem bstart_grammar_counterexample :
+/-- Former findings F6 / F6b (fixed by 6c83288 / 14727d5): the histories that used to put data between
+    the last `FlushAndRestart` and `Terminate` now respect the grammar. -/
+example :
     let h : List (Op Nat) :=
       Op.b true 0 [.item 41, .far, .term] ++ Op.b false 0 [.far] ++ [.enq false 1 [.far]]
         ++ Op.b false 0 [.term] ++ Op.b false 1 [.term]
-    (run 1 2 true false h).2 = .done ∧ grammarOk (run 1 2 true false h).1 = false := by
+    (run 1 2 true false h).2 = .done ∧ grammarOk (run 1 2 true false h).1 = true := by
   decide
 
-/-- **F6b — also with one loop-side replica when the receive at the round boundary times out.** -/
-theorem bstart_grammar_timeout_counterexample :
+example :
     let h : List (Op Nat) :=
       Op.b true 0 [.item 41, .far, .term] ++ Op.b false 0 [.far] ++ Op.b false 0 [.term]
-    (run 1 1 true false h).2 = .done ∧ grammarOk (run 1 1 true false h).1 = false := by
+    (run 1 1 true false h).2 = .done ∧ grammarOk (run 1 1 true false h).1 = true := by
   decide
 
 /-- the good cases: no cache, two replicas on the left, two iterations, a queued `Terminate`;
